@@ -103,10 +103,36 @@ fn run_tri(rec: &mut Rec, d: &Value) {
             Err(_) => rec.note("outline_panicked"),
         }
     }
+    // the triangle filled through a style without a stroke (no stroke colour / a stroke colour with width 0), for the
+    // three stroke alignments: [al, variant, draw() set, pixels() set, pixels() ended]
+    let mut fls = vec![];
+    for al in 0..3u32 {
+        for (variant, sc) in [(0, -1i64), (1, 0)] {
+            let st: PrimitiveStyle<BinaryColor> = egv::shapes::style_from(&egv::shapes::style_desc(1, sc, 0, al));
+            let r = catch(|| {
+                let styled = t.into_styled(st);
+                let mut m = MapTarget::<BinaryColor>::new();
+                styled.draw(&mut m).unwrap();
+                let fl: BTreeSet<(i32, i32)> = m.map.keys().copied().collect();
+                let bb = t.bounding_box();
+                let budget = (bb.size.width as usize + 4) * (bb.size.height as usize + 4) + 64;
+                let (px, done) = pull(styled.pixels(), budget);
+                let flp: BTreeSet<(i32, i32)> = px.iter().map(|Pixel(p, _)| (p.y, p.x)).collect();
+                json!([al, variant, runs_of(&fl), runs_of(&flp), done as i32])
+            });
+            match r {
+                Ok(o) => fls.push(o),
+                Err(p) => {
+                    rec.note("fill_panicked");
+                    rec.ev("panic", json!({"msg": p.msg, "loc": p.loc}));
+                }
+            }
+        }
+    }
     if any {
         rec.nontrivial();
     }
-    rec.ev("tri", json!({"v": d["v"], "ts": ts, "tdone": tdone, "ols": ols, "lines": lines}));
+    rec.ev("tri", json!({"v": d["v"], "ts": ts, "tdone": tdone, "ols": ols, "fls": fls, "lines": lines}));
 }
 
 fn run_pair(rec: &mut Rec, d: &Value) {
